@@ -84,14 +84,19 @@ func runC07(raw json.RawMessage, w *Writer) {
 				roc = seq.RollOverCount()
 			})
 			seqs := []int{}
+			nilPkts := 0
 			for _, p := range pkts {
+				if p == nil {
+					nilPkts++
+					continue
+				}
 				seqs = append(seqs, int(p.SequenceNumber))
 			}
 			rocI := int(roc)
 			if roc > 1<<30 {
 				rocI = 1 << 30
 			}
-			w.Emit(Ev{"ev": "pz", "res": r, "seqs": seqs, "roc": rocI})
+			w.Emit(Ev{"ev": "pz", "res": r, "seqs": seqs, "nil_packets": nilPkts, "roc": rocI})
 		}
 		return
 	}
